@@ -135,8 +135,21 @@ VaryTexts == {"function FV(P) return undefined is begin if P.count() > 2 then re
               \o "S = \"a\"; T = tab(4, FV(S.concat(\"x\"))); print T.count();" : l \in DOMAIN VaryLater, f \in DOMAIN VaryFirst}
              \cup {"function FV(P) return undefined is begin if P.count() > 2 then return " \o VaryLater[l] \o "; end if; return " \o VaryFirst[f] \o "; end;\n"
                    \o "S = \"a\"; T = tab(1, " \o VaryFirst[f] \o "); for I in 1 to 3 loop T.concat(FV(S.concat(\"x\"))); end loop; print T.count();" : l \in DOMAIN VaryLater, f \in DOMAIN VaryFirst}
+\* a container handed to its own in-place method: the argument is the value the container had before the call
+\* (the elements are made distinct first, so that reading the source while it is being shifted shows)
+SelfPut(k) == Do(Mem(X, "put", <<I(0), Args(k)[1]>>))
+SelfProgs(k) ==
+  IF k = "tup" THEN {} ELSE
+    { <<SelfPut(k), Do(Mem(X, "insert", <<I(q), X>>))>> : q \in 0..4 }
+    \cup { <<SelfPut(k), Do(Mem(X, "concat", <<X>>))>>,
+           <<SelfPut(k), Do(Mem(X, "insert", <<I(1), X>>)), Do(Mem(X, "insert", <<I(2), X>>))>>,
+           <<SelfPut(k), Do(Mem(X, "concat", <<X>>)), Do(Mem(X, "insert", <<I(1), X>>))>>,
+           <<SelfPut(k), Do(Mem(X, "put", <<I(2), Mem(X, "at", <<I(0)>>)>>))>>,
+           <<SelfPut(k), Do(Mem(X, "insert", <<I(1), Mem(X, "at", <<I(0)>>)>>))>>,
+           <<SelfPut(k), Do(Mem(X, "concat", <<Mem(X, "at", <<I(0)>>)>>))>> }
 VARIABLE p
-Init == p \in UNION {LET ops == TLCEval(Ops(k)) IN {[k |-> k, ops |-> <<ops[j]>>] : j \in DOMAIN ops} : k \in Kinds}
+Init == p \in UNION {{[k |-> k, ops |-> x, key |-> "self"] : x \in SelfProgs(k)} : k \in Kinds}
+              \cup UNION {LET ops == TLCEval(Ops(k)) IN {[k |-> k, ops |-> <<ops[j]>>] : j \in DOMAIN ops} : k \in Kinds}
               \cup (IF H >= 2 THEN UNION {LET red == TLCEval(Reduced(k)) IN {[k |-> k, ops |-> <<red[i], red[j]>>] : i \in DOMAIN red, j \in DOMAIN red} : k \in Kinds} ELSE {})
               \* thorough tier: all triples of the reduced pool
               \cup (IF H >= 3 THEN UNION {LET red == TLCEval(Reduced(k)) IN {[k |-> k, ops |-> <<red[i], red[j], red[q]>>] : i \in DOMAIN red, j \in DOMAIN red, q \in DOMAIN red} : k \in Kinds} ELSE {})
